@@ -11,6 +11,194 @@ def write_if_changed(name, text):
     if not os.path.exists(p) or open(p).read() != text:
         open(p, "w").write(text)
 
+
+def c20_read(rel):
+    return open(os.path.join(REPO, rel), encoding="utf-8").read()
+
+def c20_fn_body(src, name):
+    """text of `fn name(...) ... { body }` (brace matching; good enough for rustfmt-formatted code without braces in strings)"""
+    m = re.search(r"\bfn\s+" + re.escape(name) + r"\s*[(<]", src)
+    if not m:
+        return None
+    i = src.index("{", m.end())
+    # skip a where/return type: the first `{` after the parameter list closes is the body
+    depth, j = 0, m.end() - 1
+    while j < len(src):
+        if src[j] == "(":
+            depth += 1
+        elif src[j] == ")":
+            depth -= 1
+            if depth == 0:
+                break
+        j += 1
+    i = src.index("{", j)
+    depth, k = 0, i
+    while k < len(src):
+        c = src[k]
+        if c == "'" and k + 2 < len(src) and src[k + 2] == "'":      # char literal such as '{' or '}'
+            k += 3
+            continue
+        if c == '"':                                                  # string literal
+            k += 1
+            while k < len(src) and src[k] != '"':
+                k += 2 if src[k] == "\\" else 1
+            k += 1
+            continue
+        if c == "/" and src.startswith("//", k):                      # line comment
+            k = src.index("\n", k)
+            continue
+        if c == "{":
+            depth += 1
+        elif c == "}":
+            depth -= 1
+            if depth == 0:
+                return src[m.start():k + 1]
+        k += 1
+    return None
+
+def c20_lean_bool(b):
+    return "true" if b else "false"
+
+def extract_query_glue():
+    """C20: what query.rs does between (line, col) and the first use of the offset, the completion
+    placeholder, and the three TokenAtOffset::Between tie-break rules (asserted, not modelled twice)"""
+    src = c20_read("crates/compiler/src/query.rs")
+    m = re.search(r'const COMPLETION_PLACEHOLDER: &str = "([A-Za-z0-9_]+)";', src)
+    if not m:
+        raise Exception("query.rs: COMPLETION_PLACEHOLDER constant not found (or not a plain identifier)")
+    placeholder = m.group(1)
+    bodies = {}
+    for f in ("hover_type", "dot_completions", "colon_colon_completions"):
+        b = c20_fn_body(src, f)
+        if not b:
+            raise Exception(f"query.rs: fn {f} not found")
+        bodies[f] = b
+    direct = [f for f, b in bodies.items() if re.search(r"\.offset\(\s*line_index::LineCol\s*\{\s*line,\s*col\s*\}\s*\)", b)]
+    helper = [f for f, b in bodies.items() if re.search(r"\boffset_at\(src,\s*line,\s*col\)", b)]
+    if len(direct) == 3 and not helper:
+        checked_add = bounds = boundary = False
+        how = "line_index.offset(LineCol { line, col }) used directly in all three queries"
+    elif len(helper) == 3 and not direct:
+        h = c20_fn_body(src, "offset_at")
+        if not h:
+            raise Exception("query.rs: fn offset_at not found although the queries call it")
+        if not re.search(r"LineIndex::new\(src\)", h) or not re.search(r"\.offset\(\s*line_index::LineCol\s*\{\s*line,\s*col:\s*0\s*\}\s*\)\?", h):
+            raise Exception("query.rs: offset_at no longer starts from LineIndex::new(src).offset(LineCol { line, col: 0 })?")
+        checked_add = bool(re.search(r"u32::from\(start\)\.checked_add\(col\)\?", h))
+        bounds = bool(re.search(r"offset as usize > src\.len\(\)", h))
+        boundary = bool(re.search(r"!src\.is_char_boundary\(offset as usize\)", h))
+        if not checked_add and not re.search(r"start\s*\+\s*TextSize::from\(col\)|u32::from\(start\)\s*\+\s*col|wrapping_add\(col\)", h):
+            raise Exception("query.rs: offset_at adds the column in a way the extractor does not know")
+        how = "all three queries go through offset_at"
+    else:
+        raise Exception(f"query.rs: mixed position mapping (direct: {direct}, via offset_at: {helper})")
+    rules = {
+        "hover_type": r"TokenAtOffset::Between\(x, y\) => \{\s*if x\.kind\(\) == MySyntaxKind::Ident \{\s*Some\(x\)\s*\} else \{\s*Some\(y\)",
+        "dot_completions": r"TokenAtOffset::Between\(left, right\) => \{\s*if right\.kind\(\) == MySyntaxKind::Dot \{\s*right\s*\} else if left\.kind\(\) == MySyntaxKind::Dot \{\s*left\s*\} else \{\s*return None;",
+        "colon_colon_completions": r"TokenAtOffset::Between\(x, y\) => \{\s*if y\.kind\(\) == MySyntaxKind::Ident \{\s*Some\(y\)\s*\} else \{\s*Some\(x\)",
+    }
+    for f, rx in rules.items():
+        if not re.search(rx, bodies[f]):
+            raise Exception(f"query.rs: the TokenAtOffset::Between rule of {f} is not the modelled one")
+    if not re.search(r"fixed_src\.insert_str\(insert_index, COMPLETION_PLACEHOLDER\)", bodies["dot_completions"]) or \
+       not re.search(r"fixed_src\.insert_str\(insert_index, COMPLETION_PLACEHOLDER\)", bodies["colon_colon_completions"]):
+        raise Exception("query.rs: placeholder insertion is not `fixed_src.insert_str(insert_index, COMPLETION_PLACEHOLDER)`")
+    text = f"""/- GENERATED by tools/extract.py from crates/compiler/src/query.rs — do not edit.
+   {how} -/
+import GomlVerif.Model.Query
+namespace Goml.Gen
+open Goml.Query
+
+/-- the checks query.rs performs on the offset computed from (line, col) -/
+def queryGlue : Glue := {{ checkedAdd := {c20_lean_bool(checked_add)}, boundsCheck := {c20_lean_bool(bounds)}, boundaryCheck := {c20_lean_bool(boundary)} }}
+
+/-- `COMPLETION_PLACEHOLDER` -/
+def completionPlaceholder : String := "{placeholder}"
+
+end Goml.Gen
+"""
+    write_if_changed("QueryGlue.lean", text)
+
+
+def c04_t_names(text):
+    """`T![fn] | T!['}'] | …` -> ["fn", "}", …]"""
+    return [m.group(1) or m.group(2) for m in re.finditer(r"T!\[(?:'([^']+)'|([^\]]+))\]", text)]
+
+def c04_lean_str_list(xs):
+    return "[" + ", ".join('"' + x.replace("\\", "\\\\").replace('"', '\\"') + '"' for x in xs) + "]"
+
+def extract_parser_consts():
+    """C04: the parser's fuel constant and the shape of peek/nth/advance it is used in"""
+    src = c20_read("crates/parser/src/parser.rs")
+    new = c20_fn_body(src, "new")
+    m = re.search(r"fuel:\s*Cell::new\((\d+)\)", src)
+    if not m:
+        raise Exception("parser.rs: `fuel: Cell::new(N)` not found in Parser::new")
+    fuel = int(m.group(1))
+    adv = c20_fn_body(src, "advance")
+    m2 = re.search(r"self\.fuel\.set\((\d+)\);", adv or "")
+    if not adv or not m2 or int(m2.group(1)) != fuel:
+        raise Exception("parser.rs: advance() no longer resets the fuel to the initial value")
+    if not re.search(r"self\.input\.skip\(\);\s*self\.stuck_reported\.set\(false\);\s*self\.events\.push\(Event::Advance\);", adv):
+        raise Exception("parser.rs: advance() is not `fuel.set; input.skip; stuck_reported.set(false); push(Advance)`")
+    for f in ("peek", "nth"):
+        b = c20_fn_body(src, f)
+        if not b or not re.search(r"if self\.fuel\.get\(\) == 0 \{", b) or not re.search(r"return T!\[eof\];", b) \
+                or not re.search(r"self\.fuel\.set\(self\.fuel\.get\(\) - 1\);", b) or not re.search(r"if !self\.stuck_reported\.get\(\)", b):
+            raise Exception(f"parser.rs: {f}() is not the modelled fuel check (fuel == 0 -> report once, return eof; else fuel -= 1)")
+    eof = c20_fn_body(src, "eof")
+    if not eof or "self.input.eof()" not in eof or "fuel" in eof:
+        raise Exception("parser.rs: eof() is not the plain input.eof() any more")
+    text = f"""/- GENERATED by tools/extract.py from crates/parser/src/parser.rs — do not edit. -/
+namespace Goml.Gen
+
+/-- `Parser::new`: `fuel: Cell::new({fuel})`, and `advance()` resets to the same value -/
+def parserFuel : Nat := {fuel}
+
+end Goml.Gen
+"""
+    write_if_changed("Consts.lean", text)
+
+def extract_recovery():
+    """C04: should_consume_on_expect_failure (tokens `expect` never eats) and EXPR_FIRST"""
+    src = c20_read("crates/parser/src/parser.rs")
+    b = c20_fn_body(src, "should_consume_on_expect_failure")
+    if not b or not re.search(r"!matches!\(\s*kind,", b):
+        raise Exception("parser.rs: should_consume_on_expect_failure is not `!matches!(kind, …)`")
+    keep = c04_t_names(b)
+    if len(keep) < 5 or "fn" not in keep or "}" not in keep:
+        raise Exception(f"parser.rs: unexpected recovery set {keep}")
+    ex = c20_fn_body(src, "expect")
+    if not ex or not re.search(r"if cur_kind == T!\[eof\] \|\| !should_consume_on_expect_failure\(cur_kind\) \{\s*self\.events\.push\(Event::Error\(err_msg\)\);\s*return;\s*\}\s*self\.advance_with_error\(&err_msg\);", ex):
+        raise Exception("parser.rs: expect() is not the modelled recovery (error only on eof / recovery token, else advance_with_error)")
+    awe = c20_fn_body(src, "advance_with_error")
+    if not awe or not re.search(r"self\.events\.push\(Event::Error\(error\.to_string\(\)\)\);\s*self\.advance\(\);", awe):
+        raise Exception("parser.rs: advance_with_error() no longer advances unconditionally")
+    esrc = c20_read("crates/parser/src/expr.rs")
+    m = re.search(r"pub const EXPR_FIRST: &\[TokenKind\] = &\[(.*?)\];", esrc, flags=re.S)
+    if not m:
+        raise Exception("expr.rs: EXPR_FIRST not found")
+    first = c04_t_names(m.group(1))
+    fsrc = c20_read("crates/parser/src/file.rs")
+    fb = c20_fn_body(fsrc, "file")
+    if not fb or not re.search(r"while !p\.eof\(\) \{", fb) or not re.search(r"\} else \{\s*p\.advance_with_error\(\"expected a function\"\)\s*\}", fb):
+        raise Exception("file.rs: the top-level loop is not `while !p.eof() { if p.at(..) … else { p.advance_with_error(..) } }`")
+    guards = c04_t_names(" ".join(re.findall(r"if p\.at\((T!\[[^\]]+\])\)", fb)))
+    text = f"""/- GENERATED by tools/extract.py from crates/parser/src/parser.rs, expr.rs, file.rs — do not edit. -/
+namespace Goml.Gen
+
+/-- tokens `Parser::expect` reports but never consumes (`should_consume_on_expect_failure` is false) -/
+def recoveryTokens : List String := {c04_lean_str_list(keep)}
+
+/-- `EXPR_FIRST` -/
+def exprFirst : List String := {c04_lean_str_list(first)}
+
+/-- the `p.at(..)` guards of the top-level loop of `file()` in order -/
+def fileGuards : List String := {c04_lean_str_list(guards)}
+
+end Goml.Gen
+"""
+    write_if_changed("Recovery.lean", text)
 EXTRACTORS = []
 
 
@@ -26,6 +214,7 @@ def main():
         print("\n".join(errors))
         sys.exit(1)
 
+EXTRACTORS += [extract_query_glue, extract_parser_consts, extract_recovery]
 
 # ---------------------------------------------------------------- helpers
 def src(rel):
@@ -1409,7 +1598,127 @@ end Goml.Gen
 """)
 
 EXTRACTORS += [c03_gen_ty_consts]
+
+
+# ---------------------------------------------------------------- C07: order of the two callee lookups of mono_expr
+def c07_gen_mono_lookup():
+    """mono_expr, case ECall: a directly named callee is looked up (1) under the name as Core spells it and
+    only when that fails (2) through inherent_method_index, (base type, method) -> the generic impl function.
+    The order decides which body runs when `impl[T] B[T]` and `impl B[int32]` define the same method."""
+    t = _norm(src("crates/compiler/src/mono.rs"))
+    m = re.search(r"let callee_opt = (.*?);\s*let Some\(callee\) = callee_opt else", t, flags=re.S)
+    if not m:
+        raise Exception("anchor lost: mono.rs `let callee_opt = …; let Some(callee) = callee_opt else` (callee resolution of ECall)")
+    expr = m.group(1)
+    a = expr.find("ctx.orig_fns.get(func_name)")
+    b = expr.find("inherent_method_index")
+    if a < 0 or b < 0 or expr.count("ctx.orig_fns.get(func_name)") != 1:
+        raise Exception("anchor lost: the callee resolution of ECall no longer consists of `ctx.orig_fns.get(func_name)` and an `inherent_method_index` lookup")
+    if not (expr.startswith("ctx.orig_fns.get(func_name).or_else(") and a < b):
+        raise Exception("mono.rs: the callee of a direct call is no longer looked up as spelled FIRST and through inherent_method_index only as a fallback")
+    if t.count("inherent_method_index") != 5:
+        raise Exception(f"anchor lost: mono.rs mentions inherent_method_index {t.count('inherent_method_index')} times (expected 5: field, build x3, one lookup)")
+    write_if_changed("MonoLookup.lean", """/- GENERATED by tools/extract.py from crates/compiler/src/mono.rs (mono_expr, case ECall) — do not edit; regenerated on every ./check run -/
+
+namespace Goml.Gen
+
+/-- where `mono_expr` looks for the definition of a directly named callee -/
+inductive CalleeLookup where
+  /-- `ctx.orig_fns.get(func_name)`: the name exactly as Core spells it -/
+  | asSpelled
+  /-- `inherent_method_index`: `inherent#Base#…#method` ↦ the generic `impl[..] Base[..]` function of that method -/
+  | inherentIndex
+  deriving DecidableEq, Repr, Inhabited
+
+/-- the lookups in the order mono.rs tries them (`a.or_else(|| b)`) -/
+def calleeLookupOrder : List CalleeLookup := [.asSpelled, .inherentIndex]
+
+end Goml.Gen
+""")
+
+EXTRACTORS += [c07_gen_mono_lookup]
 EXTRACTORS += [gen_dce_tables]
+
+# ---------------------------------------------------------------- C09: guards of anf.rs
+def c09_anf_guards():
+    """which right operands of && / || `anf` keeps as a plain binary operator (no `if` lowering), and what
+    `anf_imm` passes on without naming: both must be exactly the immediates `EVar | EPrim`"""
+    t = re.sub(r"\s+", " ", src("crates/compiler/src/anf.rs"))
+    m = re.search(r"LiftExpr::EBinary \{ op: op @ \(BinaryOp::And \| BinaryOp::Or\), lhs, rhs, ty: _, \} "
+                  r"if !matches!\( ?\*rhs, (.*?) ?\) => \{ let short_circuit", t)
+    if not m:
+        raise Exception("anf.rs: guard of the EBinary{And|Or} arm (`if !matches!(*rhs, …)`) not found")
+    alts = [a.strip() for a in m.group(1).split("|")]
+    kinds = []
+    for a in alts:
+        k = re.fullmatch(r"LiftExpr::(\w+) \{ \.\. \}", a)
+        if not k:
+            raise Exception(f"anf.rs: And|Or guard alternative not of the form `LiftExpr::X {{ .. }}`: {a}")
+        kinds.append(k.group(1))
+    body = block_after(t, r"fn anf_imm<'a>\(.*?\) -> AExpr \{", "anf_imm")
+    arms = re.findall(r"LiftExpr::(\w+) \{[^}]*\} => k\(", body)
+    if "_ => { let name = gensym.gensym(\"t\");" not in body:
+        raise Exception("anf.rs: anf_imm no longer names every other expression with gensym(\"t\")")
+    ls = lambda xs: "[" + ", ".join(f'"{x}"' for x in xs) + "]"
+    write_if_changed("AnfGuards.lean", f"""/- GENERATED by tools/extract.py (c09_anf_guards) from crates/compiler/src/anf.rs — do not edit; regenerated on every ./check run -/
+namespace Goml.Anf.Gen
+/-- `LiftExpr` variants accepted by `matches!(*rhs, …)` in the `EBinary {{ op: And | Or }}` arm of `anf`:
+    right operands for which `&&` / `||` is NOT lowered to `if` -/
+def trivialRhsKinds : List String := {ls(kinds)}
+/-- `LiftExpr` variants `anf_imm` passes to its continuation without naming them -/
+def immKinds : List String := {ls(arms)}
+end Goml.Anf.Gen
+""")
+
+EXTRACTORS += [c09_anf_guards]
+# ---------------------------------------------------------------- C01 pipeline composition: order of the passes
+def c01pipe_calls(text, what):
+    """the `let (file, env) = pass(env_arg, [&gensym,] file_arg);` statements of the back half, in source order"""
+    rx = re.compile(r"let \((\w+), (\w+)\) =\s*((?:crate::)?(?:mono::mono|lift::lambda_lift|anf::anf_file|go::compile::go_file))\(\s*(\w+)\.clone\(\),\s*(?:(&gensym),\s*)?(\w+)\.clone\(\)\s*\);")
+    calls = [(m.group(3).replace("crate::", ""), m.group(4), m.group(6), m.group(5) is not None, m.group(1), m.group(2), m.start()) for m in rx.finditer(text)]
+    if [c[0] for c in calls] != ["mono::mono", "lift::lambda_lift", "anf::anf_file", "go::compile::go_file"]:
+        raise Exception(f"{what}: the back half is no longer mono -> lambda_lift -> anf_file -> go_file (found {[c[0] for c in calls]})")
+    return calls
+
+def c01pipe_gen_pipeline_order():
+    """C01 pipeline composition: which passes `pipeline::compile` (and the separate-compilation linker) run after
+    match compilation, in which order, what each is given, and that `go_file` ends with dead-code elimination"""
+    pl = src("crates/compiler/src/pipeline/pipeline.rs")
+    sep = src("crates/compiler/src/pipeline/separate.rs")
+    body = block_after(pl, r"pub fn compile\(path: &Path, src: &str\) -> Result<Compilation, CompilationError> \{", "pipeline::compile")
+    calls = c01pipe_calls(body, "pipeline::compile")
+    calls_sep = c01pipe_calls(sep, "separate.rs link")
+    if [(c[0], c[3]) for c in calls] != [(c[0], c[3]) for c in calls_sep]:
+        raise Exception("pipeline.rs and separate.rs sequence the passes differently")
+    # one Gensym, created before match compilation, shared by every later pass
+    g = [m.start() for m in re.finditer(r"let gensym = Gensym::new\(\);", body)]
+    bp = body.find("build_package(&gensym")
+    if len(g) != 1 or bp < 0 or not (g[0] < bp < calls[0][6]):
+        raise Exception("pipeline::compile: expected exactly one Gensym, created before build_package, before mono")
+    gf = block_after(src("crates/compiler/src/go/compile.rs"), r"pub fn go_file\(", "go::compile::go_file")
+    if not re.search(r"\(crate::go::dce::eliminate_dead_vars\(file\), goenv\)\s*$", gf.strip()):
+        raise Exception("go_file no longer returns eliminate_dead_vars(file)")
+    row = lambda c: f'({lstr(c[0])}, {lstr(c[1])}, {lstr(c[2])}, {"true" if c[3] else "false"}, {lstr(c[4])}, {lstr(c[5])})'
+    rows = ",\n  ".join(row(c) for c in calls)
+    write_if_changed("PipelineOrder.lean", f"""/- GENERATED by tools/extract.py (c01pipe_gen_pipeline_order) from pipeline/pipeline.rs, pipeline/separate.rs, go/compile.rs — do not edit; regenerated on every ./check run -/
+namespace Goml.Gen
+
+/-- the passes `pipeline::compile` runs after match compilation, in source order:
+    (pass, environment argument, file argument, is it handed the pipeline-wide `Gensym`,
+     variable bound to the output file, variable bound to the output environment) -/
+def pipelineOrder : List (String × String × String × Bool × String × String) := [
+  {rows}]
+
+/-- the same four calls in the same order in `separate.rs` (linking separately compiled packages) -/
+def pipelineOrderSeparate : List String := [{", ".join(lstr(c[0]) for c in calls_sep)}]
+
+/-- `go_file` returns `dce::eliminate_dead_vars(file)` -/
+def goFileEndsWithDce : Bool := true
+
+end Goml.Gen
+""")
+
+EXTRACTORS += [c01pipe_gen_pipeline_order]
 
 # ---------------------------------------------------------------- gocomp: anchors of go/compile.rs the model was written against
 def gocomp_fn_body(text, name):
